@@ -1,4 +1,4 @@
 SPECIFICATION Spec
-CONSTANTS MaxOps = 7 MaxNp = 2 MaxNd = 1 Bug = "none"
+CONSTANTS MaxOps = 6 MaxNp = 2 MaxNd = 1 Bug = "none" ZoomAuto = FALSE
 INVARIANTS InvValid InvReads InvSetter InvErr InvSetUp
 CHECK_DEADLOCK FALSE
